@@ -124,6 +124,37 @@ fn mentions_generic_parameter(ty: &Type, params: &Punctuated<GenericParam, Comma
     check(ty.into_token_stream(), &names)
 }
 
+/// The tokens of a type, printed with every lifetime replaced by `'_`.
+fn erase_lifetimes(token_stream: proc_macro2::TokenStream) -> String {
+    let mut s = String::new();
+    let mut after_apostrophe = false;
+
+    for token_tree in token_stream {
+        match token_tree {
+            proc_macro2::TokenTree::Punct(punct) if punct.as_char() == '\'' => {
+                after_apostrophe = true;
+                s.push_str("'_ ");
+            },
+            proc_macro2::TokenTree::Ident(_) if after_apostrophe => {
+                after_apostrophe = false;
+            },
+            proc_macro2::TokenTree::Group(group) => {
+                after_apostrophe = false;
+                s.push_str(&format!("{:?}(", group.delimiter()));
+                s.push_str(&erase_lifetimes(group.stream()));
+                s.push_str(") ");
+            },
+            other => {
+                after_apostrophe = false;
+                s.push_str(&other.to_string());
+                s.push(' ');
+            },
+        }
+    }
+
+    s
+}
+
 #[inline]
 pub(crate) fn create_where_predicates_from_generic_parameters_check_types(
     params: &Punctuated<GenericParam, Comma>,
@@ -133,11 +164,45 @@ pub(crate) fn create_where_predicates_from_generic_parameters_check_types(
 ) -> WherePredicates {
     let mut where_predicates = Punctuated::new();
 
-    for t in types {
-        // A bound on a type which depends on no type or const parameter is either trivially
-        // true or a compile error anyway, and two such bounds which differ only in lifetimes
-        // (`&'a str: Debug, &'b str: Debug`) make the impl ambiguous for rustc (E0283).
-        if !mentions_generic_parameter(t, params) {
+    // A bound on a type which depends on no type or const parameter is either trivially
+    // true or a compile error anyway, and two such bounds which differ only in lifetimes
+    // (`&'a str: Debug, &'b str: Debug`) make the impl ambiguous for rustc (E0283).
+    let types: Vec<&Type> =
+        types.iter().copied().filter(|t| mentions_generic_parameter(t, params)).collect();
+
+    let spelled: Vec<(String, String)> = types
+        .iter()
+        .map(|t| (t.into_token_stream().to_string(), erase_lifetimes(t.into_token_stream())))
+        .collect();
+
+    let mut bounded_parameters: Vec<&syn::Ident> = Vec::new();
+
+    for (i, t) in types.iter().enumerate() {
+        // The same ambiguity arises between `&'a T: Debug` and `&'b T: Debug`. Such types get
+        // the bound on the type parameters they mention instead, like std's derives do.
+        let ambiguous = spelled
+            .iter()
+            .enumerate()
+            .any(|(j, other)| j != i && other.1 == spelled[i].1 && other.0 != spelled[i].0);
+
+        if ambiguous {
+            for param in params {
+                if let GenericParam::Type(param) = param {
+                    let single: Punctuated<GenericParam, Comma> =
+                        ::core::iter::once(GenericParam::Type(param.clone())).collect();
+
+                    if mentions_generic_parameter(t, &single)
+                        && !bounded_parameters.contains(&&param.ident)
+                    {
+                        let ident = &param.ident;
+
+                        bounded_parameters.push(ident);
+                        where_predicates
+                            .push(syn::parse2(quote! { #ident: #bound_trait }).unwrap());
+                    }
+                }
+            }
+
             continue;
         }
 
